@@ -521,7 +521,8 @@ def compare_model(ck, c, status, trace, got, what):
                     {'impl': trace[k] if k < len(trace) else None})
 
 # ---------------------------------------------------------------------------------------------
-# known gaps of OpenLoopCLPass on the unchanged tree (reported to the maintainer; violations only with PV_C11_OPENLOOP_STRICT=1)
+# two gaps of OpenLoopCLPass found on the pinned tree and repaired in /repo (fix: update_once in a cycle / explicit-constraint cycle);
+# they are ordinary oracles now (PV_C11_OPENLOOP_STRICT=0 turns them back into informational probes)
 # ---------------------------------------------------------------------------------------------
 ONCE_SRC = '''from pymtl3 import *
 class OLOnce{u}( Component ):
@@ -565,7 +566,7 @@ class OLExpl{u}( Component ):
 '''
 def probe_gaps(ck):
   from pymtl3.dsl.errors import UpblkCyclicError
-  strict = os.environ.get('PV_C11_OPENLOOP_STRICT') == '1'
+  strict = os.environ.get('PV_C11_OPENLOOP_STRICT', '1') == '1'
   out = {}
   for tag, text, name in (('update_once-in-cycle', ONCE_SRC, 'OLOnce'), ('explicit-constraint-cycle', EXPL_SRC, 'OLExpl')):
     u = _mods[0] + 1
@@ -580,7 +581,7 @@ def probe_gaps(ck):
     if strict and outcome != 'UpblkCyclicError':
       ck.violation('update_once-in-cycle-accepted' if tag.startswith('update_once') else 'pass-group-failed-on-cyclic-design',
                    {'flow': 'openloop', 'gap': tag}, {'openloop_gap': tag, 'source': src}, {'outcome': outcome, 'oracle': 'UpblkCyclicError expected (as DynamicSchedulePass / Mamba2020Pass)'})
-  ck.extra_cov['openloop_gaps_informational'] = out
+  ck.extra_cov['openloop_gap_probes'] = out
 
 # ---------------------------------------------------------------------------------------------
 def replay(ck, data):
